@@ -26,12 +26,18 @@ THEOREMS = [
     "increment_port_unfixed_refuted", "load_cache_unfixed_refuted",
     "no_panic_expiry_test", "expiry_by_addition_refuted", "str_slice_prefix_refuted",
     "registry_save_load_roundtrip", "write_without_truncate_refuted",
+    "no_panic_check_port_availability", "check_port_availability_refuses_iff", "port_availability_exclusive_refuted",
+    "no_panic_try_deserialize_record", "try_deserialize_record_refuses_short", "payload_slice_first_refuted",
 ]
 RULE = ("per text parser: non-ASCII inputs whose BYTE length is exactly L for L around every special length (hex "
         "lengths 64/66/96/98/160/162, short port / amount / multiaddress lengths) with a 2-, 3- or 4-byte character "
         "starting at byte offsets 0..4 and ending at the end; 0x/0X prefixes, blanks, quotes, signs around valid values; "
         "cache files with last_seen at 0, 1, 2^31, 2^32, 2^62, i64::MAX-{0,1,59..86401,10^9}, u64 values and nanos "
         "serde rejects, and within 1-3 s of now / the expiry boundary; "
+        "PortRange consumers: check_port_availability / get_start_port_if_applicable for ranges with start 0, end 65535, "
+        "start = end, end < start and neighbours against 0-3 recorded services whose ports sit on / next to the bounds; "
+        "try_deserialize_record::<T> for the 8 types used in the code base on every length 0..SIZE+2, truncations of a valid "
+        "chunk record, msgpack-looking and random bytes; "
         "registry files: save -> save -> ... -> load on ONE path over any previous content, serialised sizes growing, equal, "
         "shrinking by one byte and by a lot; "
         "per parser: empty / one-short / exact / one-long / far-too-long decoded lengths around every fixed "
@@ -58,7 +64,7 @@ ASSUMPTIONS = [
 ]
 UNFIXED = bool(os.environ.get("C17_UNFIXED"))   # validate the *_unfixed model against a tree without the fixes
 RELEASE = False      # set while the cases of the release-profile (wrapping arithmetic) harness are judged
-RELEASE_OPS = ("port_parse", "port_validate", "incr_port", "load_cache", "amount_from_str", "header_from_record",
+RELEASE_OPS = ("port_parse", "port_validate", "incr_port", "port_avail", "record_payload", "load_cache", "amount_from_str", "header_from_record",
                "reg_from_hex", "scratch_from_hex", "str_to_addr", "datamap_from_hex", "registry_load")
 
 
@@ -367,6 +373,61 @@ REGISTRY_SEEDS = [
 ]
 
 
+PAYLOAD_TYPES = ["chunk", "scratchpad", "transactions", "register", "paid_chunk", "paid_scratchpad", "paid_transaction",
+                 "paid_register"]
+
+
+def port_avail_cases(rng, n):
+    """every consumer of a PortRange: check_port_availability / get_start_port_if_applicable with boundary ranges
+    (start 0, end 65535, start = end, end < start, neighbours) against a few recorded service ports"""
+    node_json = json.dumps(json.loads(REGISTRY_SEEDS[1])["nodes"][0])
+    edge = [0, 1, 2, 1023, 8081, 12000, 12005, 13000, 32767, 32768, 65533, 65534, 65535]
+    out = []
+
+    def nodes_for(a, b):
+        r = rng.random()
+        cand = [a, b, (a + b) // 2, max(a - 1, 0), min(b + 1, 65535), 0, 65535, 65534, rng.randrange(U16)]
+        if r < 0.2:
+            return []
+        lst = []
+        for _ in range(rng.choice([1, 2, 3])):
+            lst.append([rng.choice([None, rng.choice(cand)]), rng.choice([None, rng.choice(cand)]), rng.choice(cand + [8081])])
+        return lst
+    for a in edge:
+        for b in edge:
+            if rng.random() < (0.5 if (b == 65535 or a == 0 or a == b) else 0.12):
+                out.append({"op": "port_avail", "range": [a, b], "nodes": nodes_for(min(a, b), max(a, b)), "node_json": node_json})
+    for p in [0, 1, 8081, 65534, 65535]:
+        out.append({"op": "port_avail", "single": p, "nodes": nodes_for(p, p), "node_json": node_json})
+    for t in ["0-65535", "65530-65535", "65534-65535", "1-65535", "0-1", "12000-12005", "+0-+65535", "65535"]:
+        out.append(dict(S(t), op="port_avail", nodes=nodes_for(65531, 65535), node_json=node_json))
+        out.append(dict(S(t), op="port_avail", nodes=[[None, None, 65535]], node_json=node_json))
+        out.append(dict(S(t), op="port_avail", nodes=[], node_json=node_json))
+    while len(out) < n:
+        a, b = rng.randrange(U16), rng.randrange(U16)
+        if rng.random() < 0.8 and a > b:
+            a, b = b, a
+        out.append({"op": "port_avail", "range": [a, b], "nodes": nodes_for(min(a, b), max(a, b)), "node_json": node_json})
+    return out
+
+
+def payload_cases(rng, n):
+    """try_deserialize_record::<T> for every T of the code base: every length 0..SIZE+2, truncations of a valid chunk
+    record at every length, msgpack-looking and random bytes"""
+    out = []
+    short = [[], [0x91], [0x91, 1], [0x91, 1, 0xc0], [0x91, 1, 0x92, 0xc4], [0, 0], [0xff], [0x91, 1, 0x90], [0x91, 2, 0x90],
+             [0x91, 1, 0xc4, 0], [0x91, 1, 0x92, 0x90, 0x90]]
+    for t in PAYLOAD_TYPES:
+        for b in short:
+            out.append({"op": "record_payload", "t": t, "bytes": b})
+        for cut in [0, 1, 2, 3, 4, 5, 10, 40, None]:
+            out.append({"op": "record_payload", "t": t, "valid_chunk": [rng.getrandbits(8) for _ in range(rng.choice([0, 1, 50]))], "cut": cut})
+    while len(out) < n:
+        out.append({"op": "record_payload", "t": rng.choice(PAYLOAD_TYPES),
+                    "bytes": [rng.getrandbits(8) for _ in range(rng.choice([0, 1, 2, 3, 4, 8, 64]))]})
+    return out
+
+
 def registry_variants(rng):
     """registry JSON texts (formatter inputs) of many different serialised lengths, incl. neighbours differing by 1 byte"""
     base0, base1 = json.loads(REGISTRY_SEEDS[0]), json.loads(REGISTRY_SEEDS[1])
@@ -465,6 +526,8 @@ def gen(ctx, valid_pks):
         cases.append(dict(S("%d" % a), op="port_parse", canon=[0, a, a]))
     for p in [None, 0, 1, 2, 1023, 32767, 32768, 65533, 65534, 65535] + [rng.randrange(U16) for _ in range(10 * k)]:
         cases.append({"op": "incr_port", "p": p})
+    cases += port_avail_cases(rng, 160 * k)
+    cases += payload_cases(rng, 220 * k)
     # ---- amounts
     for s in amount_strings(rng, 80 * k) + utf8_probes([3, 6, 20, 40, 78], filler="1", deltas=(0,)) + \
             utf8_probes([6, 22], filler=".", deltas=(0,), offsets=(0, 1, 2)) + tolerance_probes(["1.5", "16", "0.000000000000000001"]):
@@ -644,6 +707,24 @@ def oracle(c, o):
                 wrapped = o["v"] and c["count"] == n % U16
                 bad("wrapped-count" if wrapped else "port-validate",
                     "validate(%d) = %s for %d ports%s" % (c["count"], o["v"], n, " (the 16-bit wrap of the count was accepted)" if wrapped else ""))
+    elif op == "port_avail":
+        if o.get("r") in ("parse-err", "seed-rejected"):
+            return v
+        a, b = o["a"], o["b"]
+        used = [p for t in c["nodes"] for p in (t[0], t[1], t[2]) if p is not None]
+        in_use = any(a <= p <= b for p in used)
+        if o["avail"] != (not in_use):
+            bad("port-availability", "check_port_availability(%s-%s) = %s although the recorded ports %s %s the request%s" % (
+                a, b, "Ok" if o["avail"] else "Err", used, "overlap" if in_use else "do not overlap",
+                " (a wrapped empty range hides the conflict)" if in_use and b == 65535 else ""))
+        if o["start"] != a:
+            bad("port-start", "get_start_port_if_applicable = %s for %s-%s" % (o["start"], a, b))
+    elif op == "record_payload":
+        n = len(o["value"])
+        want = "ok" if (n > 2 and o["oracle"]) else "err"
+        if o["r"] != want:
+            bad("payload", "try_deserialize_record::<%s> on %d bytes = %s, but %s" % (
+                c["t"], n, o["r"], "there is nothing after the 2-byte header" if n <= 2 else "rmp-serde %s the bytes after the header" % ("accepts" if o["oracle"] else "rejects")))
     elif op == "incr_port":
         p = c["p"]
         want = None if p is None or p + 1 >= U16 else p + 1
@@ -802,6 +883,19 @@ def model_term(c, o):
         if o["r"] == "err":
             return "agree_port_parse %s 2 0 0" % cstr(text_of(c))
         return "agree_port_validate %s %s %s %s" % (variant(), cstr(text_of(c)), cN(c["count"]), cN(0 if o["v"] else 1))
+    if op == "port_avail":
+        if "panic" in o:
+            # the range is known from the case unless it came as text; a panic never agrees with the model
+            return "false"
+        if o.get("r") in ("parse-err", "seed-rejected"):
+            return None
+        r = "Single %s" % cN(o["a"]) if o["r"] == "single" else "Range %s %s" % (cN(o["a"]), cN(o["b"]))
+        nodes = clist(["(%s, %s, %s)" % (copt(t[0], cN), copt(t[1], cN), cN(t[2])) for t in c["nodes"]])
+        return "agree_port_avail (%s) %s %s %s" % (r, nodes, cN(0 if o["avail"] else 1), copt(o["start"], cN))
+    if op == "record_payload":
+        if "panic" in o:
+            return "false"
+        return "agree_payload %s %s %s" % (cbytes(bytes(o["value"])), copt(o["oracle"], cbool), cN(k))
     if op == "incr_port":
         return "agree_incr %s %s %s %s" % (variant(), copt(c["p"], cN), cN(k if "panic" in o else 0), copt(o.get("r"), cN))
     if op == "amount_from_str":
